@@ -3,7 +3,7 @@ CONSTANTS
   CfgPool <- DecideCfgs
   AvPool = {TRUE, FALSE}
   Kinds = {"Kb", "K", "I", "A"}
-  Classes = {"short", "below", "eq", "jump", "back"}
+  Classes = {"short", "eq", "jump", "back"}
   MaxFrames = 4
   MaxEpoch = 1
   TargetLal = FALSE
